@@ -329,6 +329,25 @@ func adapters(r *lib.Report) (int64, int64) {
 			}
 		}
 	}
+	// a step that reports an error together with done: the error is what Trampoline returns ("until done or error")
+	for at := 1; at <= 3; at++ {
+		calls := 0
+		step := func(s ...int) ([]int, bool, error) {
+			calls++
+			if calls == at {
+				return []int{-1}, true, boom
+			}
+			return append(append([]int{}, s...), calls), false, nil
+		}
+		var res []int
+		var err error
+		p := lib.Catch(func() { res, err = fpgo.Trampoline(step, 0) })
+		trans++
+		states++
+		if p != "" || calls != at || err != boom || res != nil {
+			bad("trampoline", "Trampoline whose step %d returns (values, done=true, error): %d calls, result %v, err %v %s; want %d calls, result nil and the step's error", at, calls, res, err, p, at)
+		}
+	}
 	// CurryDef, sequentially: one invocation per Call with all arguments so far; frozen after MarkDone
 	for doneAt := 1; doneAt <= 3; doneAt++ {
 		var seen [][]int
